@@ -69,4 +69,37 @@ open Barril.Gen in
 example : LegacyStable poscDb.legacy (Sym.ofString "smoot") ∧ LegacyStable poscDb.legacy (Sym.ofString "m3/d") := by
   decide +kernel
 
+/-! sums and differences of derived operands of different dimensions -/
+
+section sums
+open Barril.Gen
+private def S (s : String) : Sym := Sym.ofString s
+/-- `Scalar(2,'m','length') * Scalar(300,'cm','depth')`: one quantity type through two categories -/
+private def qLenDepth : Alg.Quantity := ⟨[⟨S "length", S "m", 1⟩, ⟨S "depth", S "m", 1⟩], 0, true⟩
+private def qLen : Alg.Quantity := ⟨[⟨S "length", S "m", 1⟩], 0, false⟩
+private def qLenSq : Alg.Quantity := ⟨[⟨S "length", S "m", 2⟩], 0, true⟩
+private def qPerS : Alg.Quantity := ⟨[⟨S "time", S "s", -1⟩], 0, true⟩
+private def qPerS2 : Alg.Quantity := ⟨[⟨S "time", S "s", -2⟩], 0, true⟩
+
+example : Alg.opSame poscDb .add qLenDepth qLen 6 2 = .error .units := by decide +kernel
+example : Alg.opSame poscDb .sub qLen qLenDepth 2 6 = .error .units := by decide +kernel
+example : Alg.opSame poscDb .add qLenDepth qLenSq 6 2 = .ok (qLenDepth, 8) := by decide +kernel
+example : Alg.opSame poscDb .add qPerS qPerS2 (1/2) (1/4) = .error .units := by decide +kernel
+example : Alg.opSame poscDb .sub qPerS2 qPerS (1/4) (1/2) = .error .units := by decide +kernel
+example : qPerS.eqv qPerS2 = false ∧ qPerS.eqv qPerS = true := by decide
+/-- the hypotheses of `sum_of_different_dimensions_fails` are met by these operands -/
+example : Alg.Operand poscDb qPerS ∧ Alg.Known poscDb qPerS2 :=
+  ⟨⟨Alg.known_of_b (by decide +kernel), Alg.unified_of_single _ _, by decide⟩, Alg.known_of_b (by decide +kernel)⟩
+example : Alg.dim poscDb (S "time") qPerS.entries ≠ Alg.dim poscDb (S "time") qPerS2.entries := by decide +kernel
+example : Alg.Known poscDb qLenDepth ∧ Alg.Operand poscDb qLen :=
+  ⟨Alg.known_of_b (by decide +kernel), ⟨Alg.known_of_b (by decide +kernel), Alg.unified_of_single _ _, by decide⟩⟩
+example : Alg.dim poscDb (S "length") qLen.entries ≠ Alg.dim poscDb (S "length") qLenDepth.entries := by
+  decide +kernel
+/-- inside a history: the failed sums change no later answer -/
+example : okFlags (xoutputs (XState.fresh poscDb)
+    [.sumq .add qLenDepth qLen 6 2, .eqq qPerS qPerS2, .sumq .add qPerS qPerS2 (1/2) (1/4),
+     .plain (.arith .add (S "length") (S "m") (S "depth") (S "cm") 1 200), .sumq .add qLenDepth qLenSq 6 2])
+    = [some .units, none, some .units, none, none] := by decide +kernel
+end sums
+
 end Barril.Fail
